@@ -283,6 +283,16 @@ def check(chk):
     loops = [h for h in cfg.nodes if h.kind == "loop"]
     chk.ob("DOM-24", "all keys of the source are examined", bool(loops) and src(loops[0].ast.iter) == "config", g.where(), construct=g.ident,
            text="loop over config")
+    # sufficiency: *every* unknown key is rejected -- nothing but "is a plain key, not in the spec, not private" and the permissive option decide
+    if loops:
+        from sa.helpers import inloop_guards, positive
+        from sa.cfg import canon_fact
+        for n in raises:
+            got = positive(inloop_guards(cfg, n.id, loops[0].id))
+            perm = {(k, v) for k, v in got if "allow_invalid_config_sections" in k or k.replace('"', "'") == "'mpf' in self.machine.config"}
+            want = {canon_fact(*x) for x in (("isinstance(k, dict)", False), ("k not in spec", True), ("k[0] != '_'", True))}
+            chk.ob("DOM-24", "every key that is not in the spec (and is not private) is rejected - no further condition", positive(want) == got - perm,
+                   g.where(n.ast), detail="selected by %s" % sorted(got - perm), construct=g.ident, text="unknown key rejected exactly")
     # ... every one of them: the only way out of the key loop is its end or the error
     for h in loops:
         for n in cfg.nodes_where(lambda n: n.kind == "stmt" and isinstance(n.ast, (ast.Return, ast.Break))):
@@ -308,6 +318,39 @@ def check(chk):
             ok = kwarg(v, "item") is None and src(v.args[0]) == "this_spec[k]" and gd.get("add_missing_keys") is True
             chk.ob("DOM-24", "a missing key gets the validated default of its own spec", ok, f.where(n.ast), construct=f.ident,
                    text="default fill")
+    # ... and for *every* key of the spec: exactly the provided keys are validated, exactly the missing ones are defaulted; the only keys
+    # left alone are `ignore` entries and private (`_`) keys; the loop covers all keys of the spec
+    from sa.helpers import exact_selection
+    kl = [h for h in cfg.nodes if h.kind == "loop" and isinstance(h.ast.target, ast.Name) and h.ast.target.id == "k"]
+    if not kl:
+        chk.missing("DOM-24", "_validate_config walks the keys of the spec", f)
+    else:
+        h = kl[0]
+        chk.ob("DOM-24", "every key of the section's spec is looked at", src(h.ast.iter).replace(" ", "") in ("list(this_spec.keys())", "this_spec", "list(this_spec)", "this_spec.keys()")
+               and not any(isinstance(y, (ast.Break, ast.Return)) for y in ast.walk(h.ast)), f.where(h.ast), detail=src(h.ast.iter), construct=f.ident, text="spec key loop")
+        for n in stores:
+            v = n.ast.value
+            isd = "isinstance(this_spec[k], dict)"
+            live = {("this_spec[k] == 'ignore'", False), ("k[0] == '_'", False)}
+            if isinstance(v, ast.Call) and call_attr(v) == "validate_config_item" and kwarg(v, "item") is not None:
+                exact_selection(chk, "DOM-24", "every provided scalar key is validated (no further condition)", f, cfg, n, h, live | {("k in source", True), (isd, False)},
+                                text="provided scalar validated exactly")
+            elif isinstance(v, ast.Call) and call_attr(v) == "validate_config_item":
+                exact_selection(chk, "DOM-24", "every missing scalar key is defaulted when defaults are requested (no further condition)", f, cfg, n, h,
+                                live | {("k in source", False), ("add_missing_keys", True), (isd, False)}, text="missing scalar defaulted exactly")
+            elif src(v) == "final_list":
+                exact_selection(chk, "DOM-24", "every provided list-of-dicts key is validated (no further condition)", f, cfg, n, h, live | {("k in source", True), (isd, True)},
+                                text="provided sub-list validated exactly")
+            elif src(v) in ("list()", "[]"):
+                exact_selection(chk, "DOM-24", "every missing list-of-dicts key is defaulted to an empty list when defaults are requested", f, cfg, n, h,
+                                live | {("k in source", False), ("add_missing_keys", True), (isd, True)}, text="missing sub-list defaulted exactly")
+        skips = [x for x in cfg.nodes if x.kind == "stmt" and isinstance(x.ast, ast.Continue) and any(y is x.ast for y in ast.walk(h.ast))]
+        for x in skips:
+            t = [y for y in ast.walk(h.ast) if isinstance(y, ast.If) and any(z is x.ast for z in y.body)]
+            ok = bool(t) and isinstance(t[0].test, ast.BoolOp) and isinstance(t[0].test.op, ast.Or) and \
+                sorted(src(o).replace('"', "'") for o in t[0].test.values) == sorted(["this_spec[k] == 'ignore'", "k[0] == '_'"])
+            chk.ob("DOM-24", "a key of the spec is left alone only if it is an `ignore` entry or private (`_...`)", ok, f.where(x.ast), construct=f.ident,
+                   text="spec key skip condition")
     rets = [n for n in cfg.nodes_where(lambda n: n.kind == "stmt" and isinstance(n.ast, ast.Return))]
     chk.ob("DOM-24", "the processed config is returned", bool(rets) and all(src(r.ast.value) == "processed_config" for r in rets), f.where(),
            construct=f.ident, text="return processed")
@@ -659,6 +702,9 @@ def battery():
         M("enum yes/no literal mismatch", CV, "        if item is True and 'yes' in enum_values:\n            return 'yes'", "        if item is True and 'yes' in enum_values:\n            return 'true'", "MEMBER-12"),
         M("twin: enum value bound to a local first", CV, "        if str(item) in enum_values:\n            return str(item)", "        if str(item) in enum_values:\n            return str(item)  # member", None),
         M("time string parsed in seconds and rescaled to ms", "mpf/devices/switch.py", "            ms = Util.string_to_ms(ev_time)", "            ms = int(Util.string_to_secs(ev_time) * 1000)", "TABLE-3"),
+        M("some provided keys are returned unvalidated", CV, "            if k in source:  # validate the entry that exists\n", "            if k in source and k != 'debug':  # validate the entry that exists\n", "DOM-24"),
+        M("keys named like templates are not validated", CV, "            if this_spec[k] == 'ignore' or k[0] == '_':\n                continue", "            if this_spec[k] == 'ignore' or k[0] == '_' or k.endswith('_events'):\n                continue", "DOM-24"),
+        M("unknown keys of some sections are accepted", CV, "                if not isinstance(k, dict) and k not in spec and k[0] != '_':", "                if not isinstance(k, dict) and k not in spec and k[0] != '_' and len(spec) > 1:", "DOM-24"),
     ]
 
 
